@@ -67,7 +67,10 @@ Inductive pc :=
 | PCEmpty (p : Z)                      (* close_loop -> process_signals: `while not empty()`, batch priority p known *)
 | PCGet (p : option Z)                 (*   get() / get_top_event_if_priority: self._queue.get() *)
 | PCPutBack (e : entry)                (*   self._queue.put(entry): other priority, goes back *)
-| PCAcq | PCPop | PCRepoint | PCRel (h : how)   (* with self._lock: pop; re-point; release *)
+| PCAcq | PCPop | PCRepoint | PCRel (h : how)   (* with self._lock: pop; re-point; release (then `_run_loop = False`) *)
+| PCRet                                (* close_loop has returned with _run_loop = False; the handler that called it is still
+                                          running (other threads are scheduled meanwhile); the next step is its return: the closed
+                                          level's _mainloop leaves `while self._run_loop` and does `if not _force_quit: _run_loop = True` *)
 | PFClear                              (* force_quit after `_force_quit = True` *)
 | PDead.                               (* the thread left through ExitMainLoop: the rest of its program never runs *)
 
@@ -142,7 +145,8 @@ Definition lbl (t : nat) (l : list Z) (h : shared) : shared := h <| h_trace := (
    5 acquire q._lock | 6 membership q b | 7 release q._lock | 8 next(counter) q c | 9 put q sid
    10 release MainLoop._lock | 11 read _active_queue q | 12 get q sid | 13 nothing shared (skipped)
    14 set.add q o | 15 write _active_queue := new q | 16 append q | 17 empty() q b | 19 pop -> q / -1
-   20 write _active_queue := q (re-point) | 21 write _force_quit | 22 clear *)
+   20 write _active_queue := q (re-point) | 21 write _force_quit | 22 clear
+   27 the handler that closed a level returns: _mainloop re-arms _run_loop *)
 
 (* ------------------------------------------------------------------ enqueue_signal *)
 Definition estep (t : nat) (s : sig) (e : epc) (h : shared) : option (option epc * shared) :=
@@ -281,10 +285,11 @@ Definition cont (t : nat) (p : pc) (prog : list action) (h : shared) : option (t
   | PCRel hw =>
     let h' := lbl t [10]%Z (h <| h_mlock := 0 |>) in
     match hw with
-    | HOk => Some (mk prog P0, h' <| h_run := negb (h_fq h) |>)   (* _run_loop = False; the level's _mainloop returns: if not _force_quit: _run_loop = True *)
+    | HOk => Some (mk prog PCRet, h' <| h_run := false |>)          (* ...; self._run_loop = False *)
     | HExit => Some (mk prog PDead, h')                             (* ExitMainLoop: the loop thread leaves run() *)
     | HExn => Some (mk prog P0, h')                               (* IndexError, swallowed by _process_signal *)
     end
+  | PCRet => Some (mk prog P0, lbl t [27]%Z (h <| h_run := if h_fq h then h_run h else true |>))
   | PFClear => Some (mk prog P0, lbl t [22]%Z (h <| h_evq := [] |> <| h_run := false |>))
   end.
 
